@@ -793,6 +793,21 @@ func (m *monitor) step(s stepRec) string {
 		if cmd.Op == "unknown" || cmd.Op == "empty" || cmd.Op == "garbage" {
 			m.errors++ // these count against the connection whatever else is open
 		}
+		if cmd.Op == "auth-plain" || cmd.Op == "auth-noir" {
+			// whatever else is unknown here, an authentication that goes
+			// through (or is refused as a repetition) is remembered: it
+			// outlives the next greeting
+			for _, rp := range s.Replies {
+				switch rp.Code {
+				case 235:
+					m.authed, m.authUncertain = true, false
+				case 503:
+					// "already authenticated", or out of sequence for some
+					// other reason: not known
+					m.authUncertain = m.authUncertain || !m.authed
+				}
+			}
+		}
 		if (cmd.Op == "greet" || (cmd.Op == "helo" && !m.cfg.LMTP)) && len(s.Replies) == 1 && s.Replies[0].Code == 250 {
 			for _, ns := range begins(s.Events, "NewSession") {
 				if ns.Hostname != cmd.Arg || ns.TLS != m.tls {
